@@ -6,17 +6,19 @@ import os
 import struct
 
 from .. import refhex
-from ..core import CaseStage, fresh_dir, h8, seed_slice
+from .. import core
+from ..core import BfsStage, CaseStage, fresh_dir, h8, seed_slice
 
 LEVEL = "exploration"
 RULE = ("full product envelope size x partition address x info address x cache count through "
         "ImageCreator.create_files_for_update and (rotating slice) cmd_image.main; both hex files are read back with "
         "the verifier's Intel-HEX reader and compared byte-for-byte with the reference record/file; non-trivial = "
-        "both files were produced and read; distinct = distinct parameter tuples")
+        "both files were produced and read; distinct = distinct parameter tuples; plus breadth-first histories of generations in one process on one "
+        "set of paths (envelope file rebuilt with another size between steps): after every step both files describe the file as it is now")
 ASSUMPTIONS = ["svmc/refhex.py reads Intel HEX correctly (record types 00-05, checksums, duplicate detection)",
                "address + size stays within 32 bits (as in the property)"]
-BOUNDS = {"quick": "11 sizes x 9 partition addresses x 4 info addresses x caches {0,1,6,16}",
-          "thorough": "11 sizes x 9 partition addresses x 4 info addresses x caches 0..16"}
+BOUNDS = {"quick": "histories depth 2; 11 sizes x 9 partition addresses x 4 info addresses x caches {0,1,6,16}",
+          "thorough": "histories depth 3; 11 sizes x 9 partition addresses x 4 info addresses x caches 0..16"}
 
 SIZES = [0, 1, 2, 15, 16, 17, 65534, 65535, 65536, 65537, 131077]
 PART = [0, 1, 0xFFF0, 0xFFFF, 0x10000, 0x00FFFFF0, 0x01000000, 0x0E100000, "top"]
@@ -84,6 +86,54 @@ def run(case, agg):
         agg.ok(key, f"ok:{path}", sample={"size": size, "partition": hex(part), "info": hex(info), "caches": nc})
 
 
+# -- histories in one process: the same paths used again and again ------------------------------------
+H_OPS = [(size, part, nc) for size in (300, 785, 0) for part in (0x1000, 0x0E100000) for nc in (1, 6)]
+
+
+def hist_init():
+    return [((), ("start",))]
+
+
+def hist_step(hist, agg, expand):
+    """a history of image-update generations in ONE process on ONE set of paths (the envelope file is rebuilt with
+    other content and size between the steps, as in an incremental build): after every step both files describe the
+    envelope file as it is NOW"""
+    from suit_generator import cmd_image
+    hist = core.tuplify(hist)
+    if hist:
+        with fresh_dir("c16h") as d:
+            inp, sto, dfu = (os.path.join(d, x) for x in ("e.suit", "storage.hex", "dfu.hex"))
+            for n, i in enumerate(hist):
+                size, part, nc = H_OPS[i]
+                data = bytes((b + n) & 0xFF for b in content(size))
+                open(inp, "wb").write(data)
+                info = 0x0E1EF340
+                try:
+                    if n % 2:
+                        cmd_image.main(image="update", input_file=inp, storage_output_file=sto, dfu_partition_output_file=dfu,
+                                       update_candidate_info_address=info, dfu_partition_address=part, dfu_max_caches=nc)
+                    else:
+                        cmd_image.ImageCreator.create_files_for_update(inp, sto, dfu, info, part, nc)
+                    smem, dmem = refhex.read_hex_file(sto), refhex.read_hex_file(dfu)
+                except Exception as e:
+                    agg.viol(f"C16:history/failed/{type(e).__name__}", f"history {[H_OPS[j] for j in hist[:n + 1]]}: {type(e).__name__}: {e}")
+                    return []
+                want_rec = struct.pack("<IIII", 0x55AA55AA, 1, part, size) + b"\x00" * (8 * nc)
+                if smem != {info + k: b for k, b in enumerate(want_rec)}:
+                    got = refhex.regions(smem)
+                    agg.viol("C16:history/storage-record", f"history {[H_OPS[j] for j in hist[:n + 1]]} on one set of paths: after step {n + 1} the record is "
+                             f"{[(hex(a), b[:24].hex(), len(b)) for a, b in got][:2]}, the envelope file has {size} bytes now (expected {want_rec[:16].hex()}, {len(want_rec)} bytes)")
+                    return []
+                if dmem != {part + k: b for k, b in enumerate(data)}:
+                    agg.viol("C16:history/dfu-partition", f"history {[H_OPS[j] for j in hist[:n + 1]]} on one set of paths: after step {n + 1} the partition image "
+                             f"{[(hex(a), len(b)) for a, b in refhex.regions(dmem)][:3]} is not the current envelope file at {hex(part)}+{size}")
+                    return []
+        agg.ok(h8("c16h", hist), f"ok:depth{len(hist)}", sample={"history": [list(H_OPS[j]) for j in hist]} if hist == (0, 5) else None)
+    if not expand:
+        return []
+    return [(f"update:{H_OPS[i]}", hist + (i,), h8("c16h", hist + (i,))) for i in range(len(H_OPS))]
+
+
 def cli_cases(tier):
     out = []
     for part, info, caches in ((4096, 65536, 0), (0x10000, 0xFFFC, 1), (0, 0, 16), (305419896, 1234567, 6), (0xE100000, 0xE1EF340, 6)):
@@ -122,4 +172,6 @@ def run_cli(case, agg):
 
 def plan(tier):
     return [CaseStage("update-images", lambda: cases(tier), run, disjoint=True, rule=RULE),
+            BfsStage("update-histories", hist_init, hist_step, max_depth=2 if tier == "quick" else 3,
+                     rule="histories of image-update generations in one process on one set of paths: 12 (size, partition address, caches) tuples, envelope file rebuilt between steps"),
             CaseStage("cli-address-syntax", lambda: cli_cases(tier), run_cli, rule="real CLI, addresses typed as decimal / 0x / 0X / 0o")]
